@@ -121,6 +121,16 @@ def run(ctx):
             if b1 > 1e-200:
                 eq("estimator-translation-invariant", b1, b2, tol=20000)
                 eq("estimator=formula-on-eye-statistics", b1, v, tol=300000)
+            # an eye object that also carries other fields (as the ones GET_EYE returns do): the estimate only depends on mu1-mu0, s0, s1 (and M)
+            e3 = eye(mu0=mu0, mu1=mu0 + mu, s0=s0, s1=s1, threshold=mu0 + 0.8 * mu, t_opt=0.1, i=3, sps=16)
+            b3 = float(ook.BER_analizer("estimator", eye_obj=e3))
+            if b1 > 1e-200:
+                eq("estimator-translation-invariant", b3, b1, tol=20000)
+            for dec in ("soft", "hard"):
+                p3 = float(ppm.BER_analizer("estimator", eye_obj=e3, M=M, decision=dec))
+                p1_ = float(ppm.BER_analizer("estimator", eye_obj=e1, M=M, decision=dec))
+                if p1_ > 1e-200:
+                    eq("estimator-translation-invariant", p3, p1_, tol=20000)
             for dec in ("soft", "hard"):
                 p1 = float(ppm.BER_analizer("estimator", eye_obj=e1, M=M, decision=dec))
                 p2 = float(ppm.BER_analizer("estimator", eye_obj=e2, M=M, decision=dec))
@@ -166,7 +176,7 @@ def run(ctx):
                             eq("threshold-covariant-under-a-change-of-units", (th_a / al_ - mu0) / mu + 1, (th - mu0) / mu + 1, tol=2000)
         ctx.case(("two-level", M, s0 == s1, mu / max(s0, s1) > 8), {"mu": mu, "s0": s0, "s1": s1, "M": M})
     # ---- receiver model
-    for it in range(600 if T else 40):
+    for it in range(600 if T else 72):
         P = rnd.uniform(-50, 0)
         M = rnd.choice([2, 4, 16, 256])
         mod = "ook" if it % 3 == 0 else "ppm"
@@ -211,8 +221,13 @@ def run(ctx):
                     dec = rnd.choice(["soft", "hard"])
                     ref = float(ppm.theory_BER(d, s0_, s1_, M, dec))
                     got = float(ut.theory_BER(P, "ppm", M, dec, ER=ER, amplify=amp, f0=f0, G=Gt, NF=NF, BW_opt=BWopt, r=r_, BW_el=BWel, R_L=RL, T=Tk, NF_el=NFel))
-                if ref > 1e-9 and got > 1e-9:        # deeper in the tail the 1000- and 5000-point threshold grids differ by more than a few %
-                    eq("utils.theory_BER=error-integral-on-model-levels-and-variances", got, ref, tol=6000000)
+                    dec2 = "hard" if dec == "soft" else "soft"          # the other decision rule at the same operating point
+                    ref2 = float(ppm.theory_BER(d, s0_, s1_, M, dec2))
+                    got2 = float(ut.theory_BER(P, "ppm", M, dec2, ER=ER, amplify=amp, f0=f0, G=Gt, NF=NF, BW_opt=BWopt, r=r_, BW_el=BWel, R_L=RL, T=Tk, NF_el=NFel))
+                    if max(ref2, got2) > 1e-8:
+                        eq("utils.theory_BER=error-integral-on-model-levels-and-variances", got2 + 1e-9, ref2 + 1e-9, tol=6000000)
+                if max(ref, got) > 1e-8:        # deeper in the tail the 1000- and 5000-point threshold grids differ by more than a few %
+                    eq("utils.theory_BER=error-integral-on-model-levels-and-variances", got + 1e-9, ref + 1e-9, tol=6000000)
             # decreasing with received power
             Ps = [P - 6, P - 3, P, min(P + 3, 0)]
             seq = [float(ut.theory_BER(p_, mod, M, "soft" if mod == "ppm" else None, ER=ER, amplify=amp, f0=f0, G=G if amp else None, NF=NF if amp else None,
